@@ -687,7 +687,12 @@ impl B {
             CostFn::MemFind,
             CostFn::MemRfind,
         ]);
-        self.push(t, Op::Cost { f, hay, needle });
+        let cfg = match self.rng.below(4) {
+            0 | 1 => None,
+            2 => Some(FinderCfg { prefilter: false, ranker: Ranker::Default }),
+            _ => Some(self.finder_cfg()),
+        };
+        self.push(t, Op::Cost { f, hay, needle, cfg });
     }
 
     fn scn_cross_backend(&mut self, t: usize, k: usize, max_hay: usize, max_needle: usize) {
@@ -743,7 +748,7 @@ fn draw_env(rng: &mut Rng, tgt: &Target, nthreads: usize, concurrent_faults: boo
         // the explicit fault is not needed (and would only mask it)
         stale_pct = 0;
     }
-    Env { krate, cpu, dispatch, sched, stale_pct }
+    Env { krate, cpu, dispatch, sched, stale_pct, poison: 0 }
 }
 
 /// Generates episode family `index` of a profile.
@@ -814,7 +819,7 @@ pub fn generate(profile: Profile, verif_seed: u64, index: u64, tgt: Target) -> F
             // reference: the same programs, one thread after the other, on a
             // process whose dispatch cache is already warm, no faults
             let reference =
-                Env { krate: env.krate, cpu: env.cpu, dispatch: Dispatch::Warm, sched: Sched::Sequential, stale_pct: 0 };
+                Env { krate: env.krate, cpu: env.cpu, dispatch: Dispatch::Warm, sched: Sched::Sequential, stale_pct: 0, poison: 0 };
             variants = vec![reference, env.clone()];
             diff_kind = VKind::Schedule;
         }
@@ -919,7 +924,7 @@ pub fn generate(profile: Profile, verif_seed: u64, index: u64, tgt: Target) -> F
             for &krate in &[Krate::Std, Krate::Alloc, Krate::Core] {
                 for &cpu in cpus {
                     let dispatch = if b.rng.chance(1, 2) { Dispatch::Fresh } else { Dispatch::Warm };
-                    variants.push(Env { krate, cpu, dispatch, sched: Sched::Sequential, stale_pct: 0 });
+                    variants.push(Env { krate, cpu, dispatch, sched: Sched::Sequential, stale_pct: 0, poison: 0 });
                 }
             }
             diff_kind = VKind::Config;
@@ -958,6 +963,14 @@ pub fn generate(profile: Profile, verif_seed: u64, index: u64, tgt: Target) -> F
                 }
             }
         }
+    }
+    if profile == Profile::C05 && !tgt.miri {
+        // the same episode with different bytes AROUND the caller's slices:
+        // a result that changes has provably read outside them
+        let mut e2 = env.clone();
+        e2.poison = 1;
+        variants = vec![env.clone(), e2];
+        diff_kind = VKind::Trap;
     }
     if variants.is_empty() {
         variants = vec![env.clone()];
